@@ -1394,11 +1394,28 @@ def _get_switch_candidate(expression, ir):
     res1 = _render_expression(arg1, ir, subexpressions=None)
 
     if res0.is_constant and not res1.is_constant:
-        return arg1, arg0
-    if res1.is_constant and not res0.is_constant:
-        return arg0, arg1
+        discriminant, case = arg1, arg0
+    elif res1.is_constant and not res0.is_constant:
+        discriminant, case = arg0, arg1
+    else:
+        return None, None
 
-    return None, None
+    if discriminant.type.which_type == "integer":
+        # A case label must be representable in the C++ type of the switch
+        # operand, which is chosen from the discriminant's range.  A constant
+        # outside that range (`if uint32_field == -1`) can never match; leave it
+        # to the generic `if` path, which compares in a common wider type.
+        value = int(case.type.integer.modular_value)
+        bounds = discriminant.type.integer
+        if bounds.minimum_value in ("-infinity", "infinity") or bounds.maximum_value in (
+            "-infinity",
+            "infinity",
+        ):
+            return None, None
+        if not int(bounds.minimum_value) <= value <= int(bounds.maximum_value):
+            return None, None
+
+    return discriminant, case
 
 
 def _generate_optimized_ok_method_body(fields, ir, subexpressions):
